@@ -188,6 +188,17 @@ func (c03Prop) Gen(t *Tape, ph *PhaseCfg) Case {
 	c.Argv = argv
 	// every subset of the env-backed declarations
 	c.Env = envFor(t, ds.All(), func(d *Decl) bool { return t.Draw(3) != 0 })
+	// "whatever environment variables back the options": also empty, blank, separator-only, invalid and raw contents
+	for k := 0; k < envPool; k++ {
+		if c.Env[k] != nil && t.Draw(4) == 0 {
+			weird := []string{"", " ", ",", ",,,", " , ", "zz", "1,x", "\t", "a,,b", ",1", "1,", "=", "-", "--"}
+			if t.Draw(5) == 0 {
+				c.Env.Set(k, strings.ReplaceAll(rawBytes(t, 8), "\x00", ""))
+			} else {
+				c.Env.Set(k, t.Pick(weird))
+			}
+		}
+	}
 	return c
 }
 
@@ -238,7 +249,17 @@ func (c03Prop) Exec(cc Case, st *Stats) *Violation {
 	switch p.End {
 	case EndBudget:
 		st.Count("reach.budget_" + p.Budget)
-		return &Violation{Clause: "budget-" + p.Budget, Detail: "the simulated process exceeded the " + p.Budget + " budget", Observed: observed, Nominate: true}
+		switch p.Budget {
+		case "steps":
+			// total steps: exponential backtracking can exceed it legitimately; only a run alone with this budget lifted decides
+			return &Violation{Clause: "budget-steps", Detail: "the simulated process exceeded the total step budget", Observed: observed, Nominate: true}
+		case "depth":
+			return &Violation{Clause: "runaway-recursion", Detail: fmt.Sprintf("the call stack grew beyond %d frames: unbounded recursion (a real process dies of stack exhaustion)", depthBudget), Expected: "a documented outcome", Observed: observed}
+		case "stuck-loop":
+			return &Violation{Clause: "stuck-in-loop", Detail: fmt.Sprintf("more than %d consecutive iterations of a lexer / parser / matcher / shortcut-elimination loop without leaving it: the run does not terminate", stuckLoopBudget), Expected: "a documented outcome", Observed: observed}
+		default:
+			return &Violation{Clause: "compile-does-not-terminate", Detail: fmt.Sprintf("compiling the spec took more than %d steps", compileBudget), Expected: "a documented outcome", Observed: observed}
+		}
 	case EndPanicked:
 		err, ok := p.PanicVal.(error)
 		if !ok {
